@@ -64,7 +64,11 @@ func typedRun[T any](c *ev.Case, cd codec[T]) {
 	nextID := 0
 	mkNew := func() T {
 		nextID++
-		return cd.mk(rng.Intn(span), nextID)
+		x := cd.mk(rng.Intn(span), nextID)
+		if (cd.name == "any" || cd.name == "fmt.Stringer") && cd.rd(x).id == 0 {
+			c.Add(pfx+"nil_interface_elements", 1)
+		}
+		return x
 	}
 	var model []kid // multiset
 	has := func(x kid) int {
@@ -395,9 +399,10 @@ func typedRun[T any](c *ev.Case, cd codec[T]) {
 					c.Failf("typed-heap-push-nil", "Heap[%s].Push returned nil", cd.name)
 					return
 				}
-				if carriesID {
+				if carriesID && g.id != 0 {
 					handles[g.id] = e
 				}
+
 				if !check("Push") {
 					return
 				}
@@ -426,7 +431,7 @@ func typedRun[T any](c *ev.Case, cd codec[T]) {
 						c.Failf("typed-heap-pop-not-min", "Heap[%s].Pop() returned %v but the remaining element %v precedes it (desc=%v)", cd.name, g, m, desc)
 						return
 					}
-					if carriesID {
+					if carriesID && g.id != 0 {
 						if hd, okh := handles[g.id]; okh && hd != e {
 							c.Failf("typed-heap-pop-other-handle", "Heap[%s].Pop() returned a different *Element than Push handed out for id %d", cd.name, g.id)
 							return
@@ -491,6 +496,9 @@ func typedRun[T any](c *ev.Case, cd codec[T]) {
 				del(old)
 				model = append(model, cd.rd(nv))
 				e.Value = nv
+				if cd.rd(nv).id != id { // the new value is a nil interface: it has no id to track the handle by
+					delete(handles, id)
+				}
 				mut++
 				c.Add(pfx+"h_fix", 1)
 				if !guard(c, "Heap.Fix", func() { h.Fix(e) }) || !check("Fix") {
@@ -571,7 +579,7 @@ func typedRun[T any](c *ev.Case, cd codec[T]) {
 					return
 				}
 				x, isT := r.(T)
-				if !isT {
+				if !isT && r != nil { // a nil interface element comes back as a nil any: x stays the zero T
 					c.Failf("typed-generic-pop-type", "generic[%s]: Pop returned a %T", cd.name, r)
 					return
 				}
@@ -601,7 +609,7 @@ func typedRun[T any](c *ev.Case, cd codec[T]) {
 					return
 				}
 				x, isT := r.(T)
-				if !isT {
+				if !isT && r != nil { // a nil interface element comes back as a nil any: x stays the zero T
 					c.Failf("typed-generic-remove-type", "generic[%s]: Remove returned a %T", cd.name, r)
 					return
 				}
@@ -677,7 +685,7 @@ func (c *typedCont[T]) Pop() T {
 var bad = kid{-1, -1}
 
 func typedCase(c *ev.Case) {
-	switch c.Rng.Intn(12) {
+	switch c.Rng.Intn(13) {
 	case 0:
 		typedRun(c, codec[wide5]{"struct{5×int64}",
 			func(k, id int) wide5 { return wide5{int64(^k), int64(k + id), int64(k), int64(^id), int64(id)} },
@@ -737,6 +745,9 @@ func typedCase(c *ev.Case) {
 	case 5:
 		typedRun(c, codec[any]{"any",
 			func(k, id int) any {
+				if id%4 == 0 {
+					return nil // a nil interface value is a legal element; it reads as 0#0
+				}
 				if id&1 == 0 {
 					return kid{k, id}
 				}
@@ -744,12 +755,31 @@ func typedCase(c *ev.Case) {
 			},
 			func(v any) kid {
 				switch x := v.(type) {
+				case nil:
+					return kid{0, 0}
 				case kid:
 					return x
 				case *kid:
 					if x != nil {
 						return *x
 					}
+				}
+				return bad
+			}})
+	case 12:
+		typedRun(c, codec[fmt.Stringer]{"fmt.Stringer",
+			func(k, id int) fmt.Stringer {
+				if id%4 == 0 {
+					return nil
+				}
+				return kid{k, id}
+			},
+			func(v fmt.Stringer) kid {
+				if v == nil {
+					return kid{0, 0}
+				}
+				if x, ok := v.(kid); ok {
+					return x
 				}
 				return bad
 			}})
